@@ -35,6 +35,20 @@ func passwordOf(kind string, seed uint64) string {
 		return "pässwörd☃ " + fmt.Sprint(seed%97)
 	case "long":
 		return strings.Repeat("long-password-0123456789-", 12) // 300 bytes
+	case "ws":
+		return " \tlead and trail \n"
+	case "nul":
+		return "ab\x00cd"
+	case "long73":
+		return strings.Repeat("x", 72) + "Y" // one byte beyond bcrypt-style truncation
+	case "long1100":
+		return strings.Repeat("0123456789", 110)
+	case "badutf8":
+		return "\xff\xfeabc\x80"
+	case "nfd":
+		return "cafe\u0301" // decomposed form; the composed form must not open it
+	case "mixedcase":
+		return "MiXeD-CaSe-PaSs"
 	}
 	return "x"
 }
@@ -48,6 +62,14 @@ func keyCases(prop, tier string, seed uint64) []Case {
 		cases = append(cases, Case{ID: id, Seed: subSeed(seed, prop, tier, id), Kind: "random", P: pb})
 	}
 	pws := []string{"empty", "ascii", "unicode", "long"}
+	// further password classes on the formats that do not cost seconds of scrypt per operation
+	for _, pw := range []string{"ws", "nul", "long73", "long1100", "badutf8", "nfd", "mixedcase"} {
+		add("enc", "pgp", pw, 0)
+		add("sig", "pgp", pw, 0)
+		if tier == "thorough" {
+			add("enc", "age", pw, 0)
+		}
+	}
 	reps := 2
 	msPws := []string{"empty", "unicode"} // minisign: ~7 s of scrypt per keygen/parse
 	if tier == "thorough" {
@@ -120,7 +142,21 @@ func keyRun(prop, tier string, c Case, w *Worker) (res Result) {
 	if pw1 != "" {
 		wrongs = append(wrongs, "")
 	}
-	msg := genContent(3000+int(c.Seed%500), "text", c.Seed)
+	for _, cand := range []string{pw1 + " ", pw1 + "\x00", strings.ToUpper(pw1), strings.ToLower(pw1), strings.TrimSpace(pw1), strings.ReplaceAll(pw1, "e\u0301", "\u00e9")} {
+		if cand != pw1 {
+			wrongs = append(wrongs, cand)
+		}
+	}
+	if len(pw1) > 1 {
+		wrongs = append(wrongs, pw1[:len(pw1)-1], pw1[1:])
+	}
+	if len(pw1) > 72 {
+		wrongs = append(wrongs, pw1[:72])
+	}
+	if p.Format == "minisign" || (p.Format == "age" && pw1 != "") {
+		wrongs = wrongs[:2+btoi(pw1 != "")] // every attempt costs seconds of scrypt here
+	}
+	msg := genContent([]int{3000 + int(c.Seed%500), 0, 65536, 1<<20 + 1, 1}[int(c.Seed/7)%5], "text", c.Seed)
 	str := "embedded header " + string(genContent(200, "text", c.Seed+9))
 	if p.Role == "enc" {
 		rcp1, err := keys.ParseRecipient(p.Format, k1.pub)
@@ -179,7 +215,7 @@ func keyRun(prop, tier string, c Case, w *Worker) (res Result) {
 			viol("encrypt-stream", "Encrypt close: %v", err)
 			return
 		}
-		if bytes.Contains(buf.Bytes(), msg[:64]) {
+		if len(msg) >= 64 && bytes.Contains(buf.Bytes(), msg[:64]) {
 			viol("plaintext-in-ciphertext", "ciphertext contains the plaintext")
 			return
 		}
@@ -288,11 +324,20 @@ func keyRun(prop, tier string, c Case, w *Worker) (res Result) {
 			viol("verify-stream", "Verify stream with the matching public key: %v", err)
 			return
 		}
-		alt := append([]byte(nil), msg...)
-		alt[len(alt)/2] ^= 1
-		if err := vcheck(alt, rcp1); err == nil {
-			viol("altered-verifies", "Verify stream accepted altered content")
-			return
+		var alts [][]byte
+		if len(msg) > 0 {
+			a1 := append([]byte(nil), msg...)
+			a1[len(a1)/2] ^= 1
+			a2 := append([]byte(nil), msg...)
+			a2[len(a2)-1] ^= 0x80
+			alts = append(alts, a1, a2, msg[:len(msg)/2])
+		}
+		alts = append(alts, append(append([]byte(nil), msg...), 'x'))
+		for ai, alt := range alts {
+			if err := vcheck(alt, rcp1); err == nil {
+				viol("altered-verifies", "Verify stream accepted altered content (variant %d: middle byte / last byte / truncated / appended)", ai)
+				return
+			}
 		}
 		if err := vcheck(msg, rcp2); err == nil {
 			viol("foreign-pair-verifies", "Verify stream succeeded with another pair's public key")
@@ -331,4 +376,11 @@ func init() {
 	propMeta["C18"] = PropMeta{Level: "exploration",
 		Rule:        "per case two key pairs are generated with utility.Keygen for one (role, format) in {encryption: age, pgp; signature: minisign, pgp} and one password kind (empty, ASCII, non-ASCII, 300 bytes); the pair must parse with its password, string / stream / header variants must round-trip under the matching halves, parsing the private half with 2-3 different passwords (longer, unrelated, empty) must fail, and data of pair 1 must not decrypt / verify under pair 2 (nor altered data verify); every case is non-trivial; distinct = distinct (role, format, password kind, repetition)",
 		Assumptions: []string{"minisign and age-with-password go through scrypt (seconds and ~1 GiB per call), so quick covers 2 minisign password kinds and thorough all 4"}}
+}
+
+func btoi(b bool) int {
+	if b {
+		return 1
+	}
+	return 0
 }
